@@ -97,7 +97,7 @@ def prepare(ctx):
 
 def dims(ctx):
     return [("sel", SELS), ("version", VERSIONS), ("code", [0, 1, 2]), ("custkey", [False, True]),
-            ("shape", SHAPES), ("extrakey", [None] + list(range(2 if ctx.quick else 16)))]
+            ("shape", SHAPES), ("extrakey", [None] + list(range(2 if ctx.quick else 16))), ("sink", ["stream", "path"])]
 
 
 def dec_subsets(order):
@@ -116,6 +116,8 @@ def cases(ctx):
                 for v in devs:
                     # extra keys replace the class key: enumerate them only once per (order, decs)
                     if v[5] and ki != 0:
+                        continue
+                    if v[6] and ki not in (0, 2):
                         continue
                     yield ("rt", ki, oi, decs) + v
     # default recipients: several files written one after another in one process WITHOUT an explicit ECC encryptor, each for
@@ -215,15 +217,26 @@ def run_case(ctx, case):
     # the caller's encryptor objects are created once and used for writing AND reading (as in the appnotes)
     objs = {nm: mk(nm) for nm in ("cust", "ecc", "upd")}
     mk = lambda nm: objs[nm]
+    import os as _os
+    path = _os.path.join(shapes.tmpdir(), "c02.bec2") if d["sink"] == "path" else None
     try:
         with DetRandom("c02-%r" % (case,), preset=preset):
-            bec.write_file(s, [mk("cust"), mk("ecc")])
+            if path:
+                bec.write_file(path, [mk("cust"), mk("ecc")])      # file path: written with CRLF line ends
+                with open(path, "r", newline="") as fh:
+                    text = fh.read()
+            else:
+                bec.write_file(s, [mk("cust"), mk("ecc")])
+                text = s.getvalue()
     except Exception as e:
         o.cls = "write-raises"
         return o.viol("write|raises|%s" % type(e).__name__, "writing raised %r (key class %s, blocks %r)" % (e, name, order))
-    text = s.getvalue()
     try:
-        r = Bec2File.read_file(io.StringIO(text), [mk(n) for n in decs])
+        if path:
+            r = Bec2File.read_file(path, [mk(n) for n in decs])
+            text = text.replace("\r\n", "\n")
+        else:
+            r = Bec2File.read_file(io.StringIO(text), [mk(n) for n in decs])
     except Exception as e:
         o.cls = "read-raises"
         return o.viol("read|raises|%s|%s" % (type(e).__name__, name if ki > 1 and d["extrakey"] is None else "anykey"),
